@@ -224,7 +224,12 @@ func TestResourceShutdown(t *testing.T) {
 					}
 					inDelete = true
 					var old proto.Message
-					old, err = col.Delete(w.id, resource.WithAllowMissing(true))
+					dopts := []resource.WriteOption{resource.WithAllowMissing(true)}
+					if i%2 == 1 {
+						// the writer says when the item went away: long ago. A removal is a removal whenever it is said to have happened
+						dopts = append(dopts, resource.WithWriteTime(time.Unix(1, 0)))
+					}
+					old, err = col.Delete(w.id, dopts...)
 					inDelete = false
 					if err == nil && old != nil {
 						for idx := range openBefore {
